@@ -18,8 +18,8 @@ MANIFEST = dict(
     category='model_checking',
     text='TLC exhausts the atomic replacement design for two interleaved writers (exclusive tmp_N creation, buffered '
          'body writes, close, rename or unlink, Crash anywhere, one injected OSError, body exceptions): the destination '
-         'is always old or new, a handled failure leaves old contents and no temp file, done means new, temp names are '
-         'never shared, writers terminate under fairness; a returned writer object may be entered again (rounds). TLC enumerates every schedule of the bounded model (single '
+         'is always old or new, a handled failure leaves old contents and no temp file, done means new, temp names (any fresh '
+         'name in the destination directory, bound from the observed exclusive open) are never shared, writers terminate under fairness; a returned writer object may be entered again (rounds). TLC enumerates every schedule of the bounded model (single '
          'writer: every crash point, fault point and body exception; two writers: every interleaving of the directory '
          'operations with at most one abnormal event) and the harness executes each against the real AtomicWriter in '
          'bytes and text mode (SIGKILL of a forked child for crashes, OSError raised inside the wrapped io stack for '
